@@ -52,6 +52,11 @@ func genFaultWorkload(r *rand.Rand, p *Plan, ntasks, maxCalls int, withCtx bool)
 				}
 			case x < 90 && !resp2:
 				c = CallSpec{Kind: "recv", Cmds: []CmdSpec{{Argv: []string{"SUBSCRIBE", "ch" + strconv.Itoa(r.IntN(2))}}}, TimeoutMs: 500 + r.IntN(3000)}
+			case x < 93 && !resp2 && p.Scenario == "breakage":
+				// a blocking pop that the server answers with nil (nobody pushes to that list), then a dedicated
+				// connection - the pool hands out the one the pop just gave back - that waits in Receive for a long time:
+				// when that connection goes silent only the keep-alive ping can find out
+				c = CallSpec{Kind: "blrecv", Cmds: []CmdSpec{{Argv: []string{"BLPOP", "never" + strconv.Itoa(r.IntN(2)), "0.2"}, Keys: 1, Flag: "block"}, {Argv: []string{"SUBSCRIBE", "blr." + uid(1)}}}, TimeoutMs: 40_000}
 			case x < 96:
 				c = CallSpec{Kind: "do", Cmds: []CmdSpec{{Argv: []string{"BLPOP", "bl" + strconv.Itoa(r.IntN(2)), pick(r, "0.2", "1", "3")}, Keys: 1, Flag: "block"}}}
 			case x < 98 && !resp2:
@@ -61,7 +66,7 @@ func genFaultWorkload(r *rand.Rand, p *Plan, ntasks, maxCalls int, withCtx bool)
 			default:
 				c = CallSpec{Kind: "do", Cmds: []CmdSpec{{Argv: []string{"ECHO", uid(0)}}}}
 			}
-			if withCtx && c.Kind != "recv" {
+			if withCtx && c.Kind != "recv" && c.Kind != "blrecv" {
 				switch y := r.IntN(100); {
 				case y < 10:
 					c.Cancel = true
@@ -114,6 +119,20 @@ func genBreakage(seed uint64, tier, variant string) any {
 	if r.IntN(4) == 0 {
 		p.X["close_at"] = r.IntN(200)
 	}
+	nbl := 0
+	for _, calls := range p.Tasks {
+		for _, c := range calls {
+			if c.Kind == "blrecv" {
+				nbl++
+			}
+		}
+	}
+	if nbl > 0 {
+		// the keep-alive traffic of a Receive that waits for tens of seconds costs steps; and in half of these plans the
+		// connection of the first such Receive goes silent for a minute once its subscription is confirmed
+		p.Sched.MaxSteps += 1500 * nbl
+		p.X["silence_blrecv"] = r.IntN(2) == 0
+	}
 	for i, ng := 0, r.IntN(5); i < ng; i++ {
 		switch r.IntN(3) {
 		case 0:
@@ -152,7 +171,46 @@ func execBreakage(t *testing.T, plan any, out *Outcome) {
 	var probeRecs []*sched.CallRec
 	var probeSpecs []CallSpec
 	e := standardRun(t, out.Seed, p, out, runHooks{
+		extraCall: func(e *env, cl Client, cs CallSpec, ctx context.Context, rec *sched.CallRec) *CallResult {
+			if cs.Kind != "blrecv" {
+				return nil
+			}
+			r := &CallResult{Kind: cs.Kind}
+			r.Res = []Res{toRes(cl.Do(ctx, buildCmd(cl.B(), cs.Cmds[0])))}
+			dc, release := cl.Dedicate()
+			err := dc.Receive(ctx, buildSub(dc.B(), cs.Cmds[1].Argv), func(PubSubMessage) {})
+			release()
+			if err != nil {
+				r.Err, r.ErrK = err.Error(), errKind(err)
+			}
+			return r
+		},
 		afterSetup: func(e *env) {
+			if sil, _ := p.X["silence_blrecv"].(bool); sil && !hasClose {
+				done := false
+				e.sim.UserEvents = func(s *sched.Sim) []sched.Event {
+					if done {
+						return nil
+					}
+					for _, l := range s.Links {
+						if l.Dead || len(l.S.Cmds) == 0 {
+							continue
+						}
+						last := l.S.Cmds[len(l.S.Cmds)-1]
+						if len(last.Argv) == 2 && last.Argv[0] == "SUBSCRIBE" && strings.HasPrefix(last.Argv[1], "blr.") && len(l.S.Out) == 0 {
+							l := l
+							return []sched.Event{{Kind: "user", Key: fmt.Sprintf("silence c%d", l.ID), Weight: 3, Do: func() {
+								done = true
+								until := time.Now().Add(60 * time.Second)
+								l.StallS2C, l.StallC2S = until, until
+								s.Faults = append(s.Faults, &sched.Fault{Kind: "stall", Fired: true, FiredStep: s.Step, FiredAt: time.Now(), Target: fmt.Sprintf("c%d", l.ID), Dur: 60 * time.Second, Note: "directed at a dedicated Receive"})
+								s.Stats["fault.silenced-dedicated-receive"]++
+							}}}
+						}
+					}
+					return nil
+				}
+			}
 			if !hasClose {
 				return
 			}
@@ -281,6 +339,70 @@ func execBreakage(t *testing.T, plan any, out *Outcome) {
 				out.violate("C04", "sent-after-close", "command %q reached the server after Close returned", truncArgv(ex.Argv))
 			}
 		}
+	}
+	// a peer that goes silent: the keep-alive ping must end the connection, and with it a Receive that waits on it,
+	// within KeepAlive + ConnWriteTimeout (+ slack) of fake time - judged for the dedicated Receive of "blrecv" calls,
+	// which has a deadline far beyond that
+	if ka := time.Duration(p.Opt.KeepAliveMs) * time.Millisecond; ka <= time.Second && !hasClose {
+		bound := ka + time.Duration(p.Opt.WriteTimeoutMs)*time.Millisecond + 5*time.Second
+		e.eachCall(func(task int, spec CallSpec, rec *sched.CallRec, res *CallResult) {
+			if spec.Kind != "blrecv" {
+				return
+			}
+			conn, subAt := -1, time.Time{}
+			for _, ex := range e.sim.W.Log {
+				if ex.Conn >= 0 && len(ex.Argv) == 2 && ex.Argv[0] == "SUBSCRIBE" && ex.Argv[1] == spec.Cmds[1].Argv[1] {
+					conn, subAt = ex.Conn, ex.At
+				}
+			}
+			if conn < 0 {
+				return
+			}
+			end := rec.EndAt
+			if !rec.Done {
+				end = e.sim.Start.Add(e.sim.Elapsed())
+			}
+			l := e.sim.LinkOf(conn)
+			if l == nil {
+				return
+			}
+			for _, f := range e.sim.Faults {
+				if f.Kind != "stall" || f.FiredStep == 0 || f.Target != fmt.Sprintf("c%d", conn) || f.FiredAt.Before(subAt) || !f.FiredAt.Before(end) {
+					continue
+				}
+				// how long nothing reached the client on that connection around the moment the stall began (a later,
+				// shorter stall on the same connection ends an earlier one, so the planned duration says nothing)
+				from, to := subAt, end
+				for _, d := range l.DeliveryLog {
+					if !d.At.After(f.FiredAt) && d.At.After(from) {
+						from = d.At
+					}
+					if d.At.After(f.FiredAt) && d.At.Before(to) {
+						to = d.At
+					}
+				}
+				if !l.EndedAt.IsZero() && l.EndedAt.After(f.FiredAt) && l.EndedAt.Before(to) {
+					to = l.EndedAt
+				}
+				silent := to.Sub(from)
+				ownDeadline := res == nil || res.ErrK == "ctx-deadline" || res.ErrK == ""
+				switch {
+				case silent > bound && ownDeadline:
+					out.violate("C04", "silent-peer-not-detected", "task %d call %d: Receive on dedicated connection %d (after a blocking pop answered with nil on it) was still waiting after the connection had been silent for %v (keep-alive %v, write timeout %d ms): it ended with %q", task, rec.Index, conn, silent, ka, p.Opt.WriteTimeoutMs, func() string {
+						if res == nil {
+							return "no return"
+						}
+						return res.ErrK + " " + res.Err
+					}())
+				case !ownDeadline:
+					// the Receive was ended with an error (the keep-alive ping failed) before its own deadline
+					out.judged("silent-peer-detected-by-keep-alive")
+					out.probe("silent-peer-detected-by-keep-alive")
+				default:
+					out.notJudged("receive-ended-before-the-silence-was-long-enough")
+				}
+			}
+		})
 	}
 	fired := 0
 	for _, f := range e.sim.Faults {
